@@ -619,7 +619,7 @@ func (d *SDriver) Exec(op SOp) (outs []SOut) {
 	case "close":
 		d.Stream.Close(op.Cancel)
 		outs = d.closeOuts(d.Hand.Take())
-		outs = append(outs, d.checkStop(150*time.Millisecond)...)
+		outs = append(outs, d.checkStop(2*time.Second)...) // Close() makes the client stop (unless it has stopped already)
 	case "deliver":
 		if op.Released {
 			outs, d.gatedOuts = d.gatedOuts, nil
@@ -708,13 +708,24 @@ func (d *SDriver) Exec(op SOp) (outs []SOut) {
 		for len(d.Client.OpenCh) > 0 {
 			<-d.Client.OpenCh
 		}
+		wasOpen := d.Stream.IsOpen()
 		ob.End(models.DcpStreamEnd{VbID: op.Vb}, err)
+		// how long to look for an effect: long where one is due (it ends the wait at once when it comes), short
+		// where none is; a loaded machine must not turn a late effect into a missing one
+		reopenWait := 60 * time.Millisecond
+		if wasOpen && op.Cause == "transient" {
+			reopenWait = 2 * time.Second
+		}
 		select {
 		case <-d.Client.OpenCh:
 			outs = d.openOuts(nil)
-		case <-time.After(120 * time.Millisecond):
+		case <-time.After(reopenWait):
 		}
-		outs = append(outs, d.checkStop(60*time.Millisecond)...)
+		stopWait := 30 * time.Millisecond
+		if _, active := d.Stream.GetMetric(); wasOpen && op.Cause != "transient" && active == 0 {
+			stopWait = 2 * time.Second // the last stream has ended for good: the client stops
+		}
+		outs = append(outs, d.checkStop(stopWait)...)
 	}
 	return outs
 }
